@@ -24,6 +24,13 @@ GUARD = "assert_struct_verif"
 ENV = dict(os.environ)
 ENV.update({"CARGO_NET_OFFLINE": "true", "GOPROXY": "off", "PIP_NO_INDEX": "1"})
 ENV.pop("RUST_BACKTRACE", None)
+# build and run everything with the toolchain /repo pins
+try:
+    _m = re.search(r'channel\s*=\s*"([^"]+)"', open(os.path.join(REPO, "rust-toolchain.toml")).read())
+    if _m:
+        ENV["RUSTUP_TOOLCHAIN"] = _m.group(1)
+except OSError:
+    pass
 
 FORBIDDEN = re.compile(
     r"\b(Admitted|admit|Axiom|Axioms|Parameter|Parameters|Conjecture|Conjectures|Admit Obligations)\b"
